@@ -248,7 +248,12 @@ func (c *fctx) pure(e ast.Expr) bool {
 		return true
 	case *ast.CallExpr:
 		b := c.builtin(x)
-		if b == "len" || b == "cap" || b == "min" || b == "max" || b == "append" || c.isConversion(x) {
+		pureFn := false
+		if c.t.funcValueCall(x) != nil { // a function value without slice parameters is a total pure function
+			g := c.t.exprType(x.Fun)
+			pureFn = g.k == kFunc && g.fn.pure && c.pure(x.Fun)
+		}
+		if b == "len" || b == "cap" || b == "min" || b == "max" || b == "append" || c.isConversion(x) || pureFn {
 			for _, a := range x.Args {
 				if !c.pure(a) {
 					return false
@@ -313,6 +318,9 @@ func (c *fctx) expr(e ast.Expr, en *env, k func(string) string) string {
 			}
 			return k(v.name)
 		}
+		if fn := t.funcValueRef(x); fn != nil { // a function of the package used as a value (trans_func.go)
+			return k(c.funcValueTerm(fn, x))
+		}
 		if s, ok := c.sentinel20(x, o); ok { // [ext:T20] package-level `var ErrX = errors.New("...")`, never assigned
 			return k(s)
 		}
@@ -344,6 +352,11 @@ func (c *fctx) expr(e ast.Expr, en *env, k func(string) string) string {
 	case *ast.BinaryExpr:
 		return c.binary(x, en, k)
 	case *ast.IndexExpr:
+		if id, ok := ast.Unparen(x.X).(*ast.Ident); ok { // f[T] used as a value (trans_func.go)
+			if fn := t.funcValueRef(id); fn != nil {
+				return k(c.funcValueTerm(fn, x))
+			}
+		}
 		if g := t.exprType(x.X); g.k != kSlice || g.elem != nil { // [seq] a whole struct element is not a value
 			t.fail(x, "index expression on a non-slice (or a struct element used as a value)")
 		}
@@ -633,6 +646,9 @@ func (c *fctx) call(x *ast.CallExpr, en *env, k func([]string) string) string {
 	default:
 		t.fail(x, "builtin %s", b)
 	}
+	if t.funcValueCall(x) != nil { // a function value (trans_func.go)
+		return c.callFuncValue(x, en, k)
+	}
 	if s, ok := c.seqCall(x, en, k); ok { // [seq] sync/atomic, runtime.Gosched
 		return s
 	}
@@ -688,6 +704,13 @@ func (c *fctx) call(x *ast.CallExpr, en *env, k func([]string) string) string {
 		}
 		for _, v := range vs {
 			app += " " + v
+		}
+		if back := t.writtenArgs(x); len(back) > 0 { // in-out slice arguments come back after the receiver (trans_func.go)
+			rn := ""
+			if rv != nil && fi.writes {
+				rn = rv.name
+			}
+			return c.bindCall(app, rn, back, len(fi.results), en, x, k)
 		}
 		var rs []string
 		for range fi.results {
